@@ -121,6 +121,8 @@ def extract(cfg):
         cmd.append("--rec-stub=" + a)
     if cfg.get("allow_dtor_skip"):
         cmd.append("--allow-dtor-skip")
+    if cfg.get("alloc_raises"):
+        cmd.append("--alloc-raises")
     cmd += ["--", "-std=c++17", "-I" + REPO + "/include", "-I" + REPO + "/src", "-I" + CLANG_RES, "-I" + VERIF, "-w"] + cfg.get("cxxflags", [])
     rc, out, err, dt = run(cmd, timeout=600)
     if rc != 0:
